@@ -860,7 +860,8 @@ def as_iter(I, st, x):
             return ('it', 'vec', x[1]['vec'], True)
         if x[1].get('elems') is not None:
             return ('it', 'seq', x[1]['elems'], 0, True)
-        return ('it', 'unk', {'k': 'ref', 'mut': False, 'to': x[1].get('elem_ty') or {'k': 'other'}}, x[1]['len'])
+        # a slice iterator knows how many elements it has handed out (position <= length)
+        return ('it', 'unk', {'k': 'ref', 'mut': False, 'to': x[1].get('elem_ty') or {'k': 'other'}}, x[1]['len'], const_int(0, 'usize'))
     if x[0] == 'r':
         tgt = I.read_resolved(st, ('L',) + x[1])
         if tgt is None:
@@ -922,8 +923,20 @@ def iter_next(I, st, it, item_ty):
         v = I.top(s2, ty, 'item') if ty is not None else ('top', None)
         from .entries import apply_invariants
         apply_invariants(I, s2, v)
-        outs = [(s1, it, none())]
         lenv = it[3] if len(it) > 3 else None
+        pos = it[4] if len(it) > 4 else None
+        if pos is not None and lenv is not None and pos[0] == 'i':
+            outs = []
+            # invariant of the iterator itself: it starts at 0 and advances only while position < length
+            D.rel_set(s1, pos[1], lenv, '<=')
+            D.rel_set(s2, pos[1], lenv, '<=')
+            if D.refine_cmp(s1, 'Ge', pos[1], lenv):
+                outs.append((s1, it, none()))
+            if D.refine_cmp(s2, 'Lt', pos[1], lenv):
+                npos = I.binop(s2, 'Add', pos, const_int(1, 'usize'), ty_of_name('usize'), None, None)
+                outs.append((s2, ('it', 'unk', it[2], lenv, npos if npos[0] == 'i' else None), some(v)))
+            return outs
+        outs = [(s1, it, none())]
         if lenv is None or D.get_iv(s2, lenv)[1] >= 1:
             outs.append((s2, it, some(v)))
         return outs
@@ -1397,7 +1410,10 @@ def m_as_bytes(I, st, args, dty, site):
     sv = strv_of(I, st, args[0])
     if sv is None:
         return None
-    return [(st, ('slice', {'len': sv.len, 'elems': None, 'elem_ty': ty_of_name('u8'), 'ident': sv.ident}))]
+    sl = {'len': sv.len, 'elems': None, 'elem_ty': ty_of_name('u8'), 'ident': sv.ident}
+    if sfacts(st, sv)['ascii']:
+        sl['ascii'] = True
+    return [(st, ('slice', sl))]
 
 
 @model('<T as std::string::ToString>::to_string', '<str as std::string::ToString>::to_string', 'std::string::ToString::to_string')
@@ -1470,6 +1486,8 @@ def conc_elem(I, st, ev, ety):
     """a fresh concrete element drawn from the summary"""
     if ev is None:
         v = I.top(st, ety, 'elem') if ety else ('top', None)
+        from .entries import apply_invariants
+        apply_invariants(I, st, v)      # type invariants hold for every value of the type (all construction sites are checked)
         return v
     if ev[0] == 'str':
         sv = ev[1]
@@ -1517,7 +1535,13 @@ def elem_ref(I, st, h, o, mutable):
 
 @model('std::vec::Vec::<T>::new', 'std::vec::Vec::<T>::with_capacity', 'std::collections::HashSet::<T>::new')
 def m_vec_new(I, st, args, dty, site):
-    oid = next(I._oid)
+    # allocation-site naming: two paths of one invocation reaching the same `Vec::new()` name the same object, so
+    # that the paths can be joined; a second allocation at the site on one path (loop) gets a fresh name
+    key = (site.get('fid'), site.get('bb'))
+    oid = I.site_oids.get(key)
+    if oid is None or oid in st.objs or key[0] is None:
+        oid = next(I._oid)
+        I.site_oids.setdefault(key, oid)
     ety = dty['args'][0] if dty and dty.get('args') else None
     kind = 'Set' if 'HashSet' in site['callee'] else 'Vec'
     if kind == 'Vec':
@@ -1642,6 +1666,11 @@ def m_vec_index(I, st, args, dty, site):
             return [(st, _slice_elem_ref(I, st, base[1], mutable=site['callee'].endswith('index_mut')))]
         return [(st, elem_ref(I, st, h, o, site['callee'].endswith('index_mut')))]
     # range index on a slice: start <= end <= len
+    if idx[0] == 's' and idx[1] == 'std::ops::RangeFull':
+        I.record(ob, True, st)
+        if base[0] == 'slice':
+            return [(st, base)]
+        return [(st, ('slice', {'len': lenv, 'elems': None, 'elem_ty': o[2], 'ident': ('vec', h[1]), 'vec': h[1]}))]
     if idx[0] == 's' and idx[1] in (RANGE, RANGE_INC, 'std::ops::RangeFrom', 'std::ops::RangeTo', 'std::ops::RangeFull'):
         okp = True
         if idx[1] == RANGE and _intarg(idx[2][0]) and _intarg(idx[2][1]):
@@ -2335,6 +2364,8 @@ def m_from_utf8(I, st, args, dty, site):
         sv = StrV(a[1]['len'])
         if a[1].get('ascii'):
             sv.ascii = True
+        if a[1].get('digits'):
+            sv.digits = True
     else:
         sv = I.fresh_str(s1, 'utf8')
     e = ('s', 'std::str::Utf8Error', (), ('str::from_utf8',))
@@ -2415,3 +2446,43 @@ def m_map_or_else(I, st, args, dty, site):
         r = I.call_closure(st, dclo, [], site)
         outs.extend(r if r is not None else [(st.clone(), ('top', None))])
     return outs
+
+
+@model_if(lambda n: n.startswith('std::array::equality::') or n.startswith('core::array::equality::') or n.startswith('core::slice::cmp::<impl std::cmp::PartialEq'))
+def m_array_eq(I, st, args, dty, site):
+    return [(st, I.top(st, {'k': 'bool'}, 'arr_eq'))]
+
+
+@model('std::convert::From::from')
+def m_from_generic(I, st, args, dty, site):
+    a = args[0]
+    src = a[1] if a is not None and a[0] in ('s', 'e') else None
+    if dty is not None and dty.get('k') == 'adt':
+        for cand in I.bodies:
+            if cand.startswith('<' + dty['path'] + ' as std::convert::From<') and cand.endswith('>>::from'):
+                if src and src in cand:
+                    return I.call_body(st, cand, [a], site)
+        return [(st, I.top(st, dty, 'from'))]
+    if src:
+        cands = [c for c in I.bodies if ' as std::convert::From<' + src + '>>::from' in c]
+        if len(cands) == 1:
+            return I.call_body(st, cands[0], [a], site)
+    return None
+
+
+@model('core::slice::<impl [T]>::get', 'core::slice::<impl [T]>::get_mut')
+def m_slice_get(I, st, args, dty, site):
+    a, idx = args[0], args[1]
+    if a[0] != 'slice':
+        return None
+    if _intarg(idx):
+        outs = []
+        s1 = st.clone()
+        if D.refine_cmp(s1, 'Lt', idx[1], a[1]['len']):
+            outs.append((s1, some(_slice_elem_ref(I, s1, a[1], mutable=site['callee'].endswith('_mut')))))
+        s2 = st.clone()
+        if D.refine_cmp(s2, 'Ge', idx[1], a[1]['len']):
+            outs.append((s2, none()))
+        return outs
+    s1, s2 = st.clone(), st.clone()
+    return [(s1, none()), (s2, some(('slice', I.fresh_slice(s2, a[1].get('elem_ty')))))]
